@@ -1302,8 +1302,175 @@ def make_output_for_link(c):
 # ----------------------------------------------------------------------------------------
 # live state machine on a scripted loopback API
 # ----------------------------------------------------------------------------------------
+GEN_ID = 424242
+
+
+def live_schema():
+    def q(name, enum=None, required=False):
+        sch = {"type": "string"}
+        if enum:
+            sch["enum"] = enum
+        return {"name": name, "in": "query", "required": required, "schema": sch}
+
+    return {
+        "openapi": "3.0.2",
+        "info": {"title": "live", "version": "1"},
+        "paths": {
+            "/src": {
+                "post": {
+                    "operationId": "createSrc",
+                    "parameters": [q("q", ["qv1", "qv2", "q v/3"], True)],
+                    "requestBody": {"required": True, "content": {"application/json": {"schema": {
+                        "type": "object", "properties": {"name": {"type": "string", "enum": ["alice", "bob"]}}, "required": ["name"], "additionalProperties": False}}}},
+                    "responses": {
+                        "201": {"description": "created", "links": {
+                            "A": {"operationId": "getA", "parameters": {
+                                "id": "$response.body#/id",
+                                "query.tok": "$response.header.X-Token",
+                                "query.rq": "$request.query.q",
+                                "query.emb": "u-{$response.body#/id}-{$statusCode}",
+                                "query.rx": "$response.header.Location#regex:/src/(\\d+)",
+                                "query.deep": "$response.body#/items/1/na~1me",
+                                "query.rb": "$request.body#/name",
+                                "query.m": "$method",
+                            }}}},
+                        "4XX": {"description": "client error", "links": {
+                            "B": {"operationId": "putB", "requestBody": {"code": "$statusCode", "err": "$response.body#/error", "m": "$method", "lit": 5},
+                                  "x-schemathesis": {"merge_body": False}}}},
+                        "default": {"description": "other", "links": {
+                            "C": {"operationId": "putC", "requestBody": {"st": "$statusCode", "k-{$statusCode}": ["$response.body#/w", 1]}}}},
+                    },
+                }
+            },
+            "/ta/{id}": {"get": {"operationId": "getA", "parameters": [
+                {"name": "id", "in": "path", "required": True, "schema": {"type": "integer", "enum": [GEN_ID]}},
+                q("tok", ["GEN"]), q("rq", ["GEN"]), q("emb", ["GEN"]), q("rx", ["GEN"]), q("deep", ["GEN"]), q("rb", ["GEN"]), q("m", ["GEN"]), q("own", ["OWN"], True)],
+                "responses": {"200": {"description": "ok"}}}},
+            "/tb": {"put": {"operationId": "putB", "requestBody": {"required": True, "content": {"application/json": {"schema": {
+                "type": "object", "properties": {"gen": {"type": "string", "enum": ["g"]}}, "required": ["gen"], "additionalProperties": False}}}},
+                "responses": {"200": {"description": "ok"}}}},
+            "/tc": {"put": {"operationId": "putC", "requestBody": {"required": True, "content": {"application/json": {"schema": {
+                "type": "object", "properties": {"gen": {"type": "string", "enum": ["g"]}}, "required": ["gen"], "additionalProperties": False}}}},
+                "responses": {"200": {"description": "ok"}}}},
+        },
+    }
+
+
 def stage_live(chk, rng, runs):
-    chk.stages["live_state_machine"] = {"runs": 0}
+    """Oracle search: the real state machine (engine, stateful phase) against a scripted loopback API."""
+    from urllib.parse import parse_qs, unquote, urlsplit
+
+    from harness.engine_util import run_engine
+
+    stats = {"runs": 0, "source_exchanges": 0, "link_requests": 0, "by_link": {}, "unresolvable_cases": 0}
+    for run_no in range(runs):
+        script = [rng.choice([201, 201, 201, 404, 400, 422, 500, 200, 503, "201-noid"]) for _ in range(400)]
+        exchanges = []
+        lock = threading.Lock()
+
+        def responder(item, script=script, exchanges=exchanges, lock=lock):
+            path = item["target"].split("?")[0]
+            if item["method"] == "POST" and path == "/src":
+                with lock:
+                    n = len(exchanges) + 1000
+                    kind = script[len(exchanges) % len(script)]
+                    status = 201 if kind == "201-noid" else kind
+                    if status == 201:
+                        body = {"id": n, "items": [{"na/me": "n0"}, {"na/me": f"n1-{n}"}]}
+                        if kind == "201-noid":
+                            del body["id"]
+                    elif 400 <= status < 500:
+                        body = {"error": f"e{n}"}
+                    else:
+                        body = {"w": f"w{n}"} if n % 2 else {}
+                    exchanges.append({"n": n, "status": status, "body": body, "request": item})
+                return status, [("Content-Type", "application/json"), ("X-Token", f"t{n}"), ("Location", f"/src/{n}")], json.dumps(body).encode()
+            return 200, [("Content-Type", "application/json")], b"{}"
+
+        try:
+            _, requests_seen = run_engine(live_schema(), responder, phases=["stateful"], max_examples=(6 if chk.tier == "quick" else 15), seed=rng.randrange(1, 10**6), checks=[], step_count=6)
+        except Exception as exc:  # noqa: BLE001
+            chk.count(f"live:engine_error:{type(exc).__name__}")
+            continue
+        stats["runs"] += 1
+        stats["source_exchanges"] += len(exchanges)
+
+        def src_q(ex):
+            return parse_qs(urlsplit(ex["request"]["target"]).query, keep_blank_values=True).get("q", [None])[0]
+
+        def src_body(ex):
+            try:
+                return json.loads(ex["request"]["body"] or b"null")
+            except ValueError:
+                return None
+
+        for item in requests_seen:
+            parts = urlsplit(item["target"])
+            path = parts.path
+            if item["method"] == "POST" and path == "/src":
+                continue
+            canon = {"method": item["method"], "target": item["target"], "body": item["body"].decode("utf-8", "replace")}
+            if "Unresolvable" in item["target"] or b"Unresolvable" in item["body"] or "NotSet" in item["target"] or b"NotSet" in item["body"]:
+                chk.fail("an UNRESOLVABLE / NOT_SET value was sent", canon)
+                continue
+            stats["link_requests"] += 1
+            chk.seen({"live": canon}, True)
+            explained = False
+            if path.startswith("/ta/"):
+                link = "A"
+                got_id = unquote(path[len("/ta/"):])
+                qs = {k: v[0] for k, v in parse_qs(parts.query, keep_blank_values=True).items()}
+                if qs.get("own") != "OWN":
+                    chk.fail("a generated required parameter not named by the link is missing", canon)
+                for ex in exchanges:
+                    if ex["status"] != 201 or ex["request"]["t"] > item["t"]:
+                        continue
+                    n = ex["n"]
+                    has_id = "id" in ex["body"]
+                    want = {"tok": f"t{n}", "rq": src_q(ex), "rx": str(n), "deep": f"n1-{n}", "rb": (src_body(ex) or {}).get("name"), "m": "POST"}
+                    if has_id:
+                        want["emb"] = f"u-{n}-201"
+                    ok = all(qs.get(k) == v for k, v in want.items()) and got_id == (str(n) if has_id else str(GEN_ID))
+                    if not has_id:
+                        ok = ok and qs.get("emb") in (None, "GEN")
+                    if ok:
+                        explained = True
+                        stats["unresolvable_cases"] += not has_id
+                        break
+            elif path in ("/tb", "/tc"):
+                link = "B" if path == "/tb" else "C"
+                try:
+                    body = json.loads(item["body"])
+                except ValueError:
+                    body = None
+                for ex in exchanges:
+                    if ex["request"]["t"] > item["t"]:
+                        continue
+                    st, n = ex["status"], ex["n"]
+                    if link == "B":
+                        if 400 <= st < 500 and body == {"code": str(st), "err": f"e{n}", "m": "POST", "lit": 5}:
+                            explained = True
+                            break
+                    else:
+                        if st == 201 or 400 <= st < 500:
+                            continue
+                        if "w" in ex["body"]:
+                            want = {"gen": "g", "st": str(st), f"k-{st}": [ex["body"]["w"], 1]}
+                        else:
+                            want = {"gen": "g"}  # the nested value is unresolvable: the whole link body is dropped
+                            stats["unresolvable_cases"] += body == want
+                        if body == want:
+                            explained = True
+                            break
+            else:
+                continue
+            stats["by_link"][link] = stats["by_link"].get(link, 0) + 1
+            if not explained:
+                chk.fail(f"request derived through link {link} is not what the link's expressions denote on any source exchange with a matching status", canon,
+                         {"exchanges": [{k: ex[k] for k in ("n", "status", "body")} for ex in exchanges][:8]})
+            elif stats["link_requests"] % 25 == 1:
+                chk.sample({"live_link": link, "request": canon})
+    chk.stages["live_state_machine"] = stats
 
 
 def witness_fails(w) -> bool:
